@@ -99,6 +99,16 @@ Theorem C11_list_loop_bound_sufficient : forall l k,
 Proof. exact ritems_fuel_sufficient. Qed.
 Print Assumptions C11_list_loop_bound_sufficient.
 
+(* ... nor is the bound of the quoted-string loop (httpHeaderParseQuotedString): the out-of-fuel result is unreachable and
+   the reader never records it *)
+Theorem C11_quoted_string_loop_bound_sufficient : forall p len, parse_quoted p len <> QsFuel.
+Proof. exact parse_quoted_never_out_of_fuel. Qed.
+Print Assumptions C11_quoted_string_loop_bound_sufficient.
+
+Theorem C11_cache_control_reader_total : forall s c, cc_parse s = Some c -> fuel_out c = false.
+Proof. exact cc_parse_total. Qed.
+Print Assumptions C11_cache_control_reader_total.
+
 (* the default settings the model hard-wires (regenerated constants) *)
 Theorem C11_defaults_assumed :
   cfg_no_refresh_pattern = true /\ refresh_default_flags_clear = true /\ cfg_reload_into_ims = false /\
@@ -128,3 +138,8 @@ Example C11_ex_sent_with_no_store :
 Proof. exact ex_sent_with. Qed.
 Example C11_ex_sent_with_private : sent_with d_private [t_max_age_3600; t_private_arg].
 Proof. exact ex_sent_with_private. Qed.
+Example C11_ex_no_shared_permission :
+  ~ sent_with d_public [t_max_age_3600] /\ ~ sent_with d_must_revalidate [t_max_age_3600] /\
+  ~ sent_with d_s_maxage [t_max_age_3600] /\ simple (join_values [t_max_age_3600]) = true /\
+  (negative_ttl default_config <= 0)%Z.
+Proof. exact ex_no_permission. Qed.
